@@ -180,4 +180,16 @@ CHECKS = {
        'stored path/row must decode into the grid.',
   note='~35k requests / 240 configurations quick, ~3.1M / 20000 thorough. T == max_tile_limit is judged only for side effects (documentation and code disagree on whether exactly the limit is allowed). '
        'CPU/memory cost of a refused request is not measured; WMS-C tiled=true and reprojected GetMaps are not probed.'),
+ 'C01': dict(
+  category='exploration',
+  design_ref='DESIGN.md section 2 and 25.9',
+  technique='Hypothesis-generated deployments driven through WSGI with an analytic ground-function upstream; neighbourhood-interval pixel oracle; single-tile round trip; decoded upstream GetFeatureInfo calls compared with the clicked ground point',
+  text='Generated deployments (grid SRS 3857/900913/4326/25832/31467, global or regional bbox, ll/ul origin, factor 2 / sqrt2 / custom resolutions, tile sizes 64-256 incl. non-square, meta size and '
+       'buffer, upstream WMS 1.1.1/1.3.0 with supported_srs subsets and coverages or tile URL templates, cache-of-cache cascades, file/sqlite/mbtiles/compact backends) each answer 4-8 WMS 1.1.1/1.3.0 '
+       'GetMap views (aligned, shifted, rescaled, far-off, reprojected, exactly one tile; inside, across and beyond the extent) followed by WMS and WMTS GetFeatureInfo clicks. Every sampled output '
+       'pixel must lie in the colour interval of the ground function over a disc of rho >= 1.5 output pixels around its centre, pixels wholly inside the extent must not be background, pixels wholly '
+       'outside must be; a one-tile request must equal the stored tile; the forwarded feature-info point must hit the clicked ground point within one pixel.',
+  note='rho grows with documented resampling stages (coarser served level, clipping at the extent, source-side reprojection, cascades): 33 % of judged views have rho = 1.5, 25 % rho > 3.5. Displacements below '
+       '~2 px are invisible. Reprojection cases are restricted to |lat| <= 80 deg and the usage areas of the SRS. Two open known findings (mesh accuracy test, cascade extent through a regional SRS) are '
+       'excluded by construction and demonstrated by regression cases.'),
 }
